@@ -459,11 +459,12 @@ func (fx *FuncExec) applyContract(st *State, c *Contract, key string, cpkg *type
 			bound["result"] = results[i]
 		}
 	}
+	fx.callSeq++
 	for i, en := range c.Ensures {
 		env := mkEnv(st, pre, "ensures")
-		tag := fmt.Sprintf("%s.%d", shortCallee(c.Key), i+1)
+		tag := fmt.Sprintf("%s#%d.%d", shortCallee(c.Key), fx.callSeq, i+1)
 		if en.Label != "" {
-			tag = shortCallee(c.Key) + "." + en.Label
+			tag = fmt.Sprintf("%s#%d.%s", shortCallee(c.Key), fx.callSeq, en.Label)
 		}
 		fx.assumeTagged(st, env.Bool(en.Expr), tag)
 	}
